@@ -54,6 +54,10 @@ def run(chk, repo, tier):
     chk.clause('C14-f', 'physical constants within 1e-6 of CODATA', 3)
     chk.clause('C14-g', 'waveunit/valueunit are passed to like-named parameters', 4)
     chk.clause('C14-h', 'Vega zero point conversion Jy -> photons per wavelength', 1)
+    chk.clause('C14-o', 'evaluating a spectrum or a Planck curve leaves the object untouched (no per-instance memo that a unit change misses)', 4)
+    from .common import operands_untouched
+    operands_untouched(chk, repo, 'C14-o', ['radiometry.Blackbody.sample', 'radiometry.Spectrum.sample', 'radiometry.planck_radiance',
+                                            'radiometry.planck_exitance', 'radiometry.vegaflux', 'radiometry.Spectrum.integrate'], allow=[])
     chk.not_decided += ['Wien peak and Stefan-Boltzmann integral numerically (follow from C14-e/f)']
     chk.stats['exhaustive'] = True
 
@@ -196,24 +200,7 @@ def run(chk, repo, tier):
     chk.ob('C14-c', 'N-flux', fto.key, 'flux branch', ok_f and n_f > 0,
            det_f or 'converted through metres and back', fto.loc())
 
-    _, topaths, _ = analyse(repo, 'radiometry.Spectrum.to')
-    late, n_lab = [], 0
-    for p in topaths:
-        for lp in p.state.loops:
-            for bs in lp['states']:
-                evs = bs.events[lp['n_pre_events']:]
-                for label, data in (('waveunit', ('wave', 'value')), ('valueunit', ('value',))):
-                    lab = [i for i, e in enumerate(evs) if e.kind == 'write' and e.data.get('how') == 'attrstore'
-                           and e.data.get('attr') in (label, '_' + label)]
-                    dat = [i for i, e in enumerate(evs) if e.kind == 'write' and e.data.get('how') == 'attrstore'
-                           and e.data.get('attr') in data + tuple('_' + d for d in data)]
-                    if lab and dat:
-                        n_lab += 1
-                        if min(lab) < max(dat):
-                            late.append(f'{label} is re-labelled before {evs[max(dat)].data.get("attr")} is converted (at {evs[max(dat)].loc()})')
-    chk.ob('C14-c', 'D-order', 'radiometry.Spectrum.to', 'the unit label changes only after the data were converted with the old unit',
-           (not late and n_lab > 0) if (n_lab or late) else None, '; '.join(sorted(set(late))[:2]) or f'{n_lab} conversion branch(es)',
-           repo.func('radiometry.Spectrum.to').loc())
+    unit_label_order_rule(chk, repo, 'C14-c')
     fto_ = repo.func('radiometry.Spectrum.to')
     early = []
     for loop in [n for n in ast.walk(fto_.node) if isinstance(n, ast.For)]:
@@ -307,6 +294,28 @@ def run(chk, repo, tier):
                     chk.ob('C14-g', 'B5-default', key, f'call of {s.callee.key} at line {s.node.lineno} passes {unit}', explicit,
                            '' if explicit else f'relies on the default {unit}={dflt[unit].value!r} of {s.callee.key} although '
                                                f'{key} works in the `{unit}` it was given', s.loc())
+
+
+def unit_label_order_rule(chk, repo, clause):
+    """Spectrum.to converts the data with the old unit before it re-labels the spectrum (C14-c; reused by C13-c)."""
+    _, topaths, _ = analyse(repo, 'radiometry.Spectrum.to')
+    late, n_lab = [], 0
+    for p in topaths:
+        for lp in p.state.loops:
+            for bs in lp['states']:
+                evs = bs.events[lp['n_pre_events']:]
+                for label, data in (('waveunit', ('wave', 'value')), ('valueunit', ('value',))):
+                    lab = [i for i, e in enumerate(evs) if e.kind == 'write' and e.data.get('how') == 'attrstore'
+                           and e.data.get('attr') in (label, '_' + label)]
+                    dat = [i for i, e in enumerate(evs) if e.kind == 'write' and e.data.get('how') == 'attrstore'
+                           and e.data.get('attr') in data + tuple('_' + d for d in data)]
+                    if lab and dat:
+                        n_lab += 1
+                        if min(lab) < max(dat):
+                            late.append(f'{label} is re-labelled before {evs[max(dat)].data.get("attr")} is converted (at {evs[max(dat)].loc()})')
+    chk.ob(clause, 'D-order', 'radiometry.Spectrum.to', 'the unit label changes only after the data were converted with the old unit',
+           (not late and n_lab > 0) if (n_lab or late) else None, '; '.join(sorted(set(late))[:2]) or f'{n_lab} conversion branch(es)',
+           repo.func('radiometry.Spectrum.to').loc())
 
 
 def root_is_self(v):
